@@ -29,7 +29,7 @@ func init() {
 			witnessFamily("C11"),
 			{Name: "pairs", N: tierN(240, 6000), Run: c11Pairs},
 			{Name: "big", N: tierN(40, 120), Run: c11Big},
-			{Name: "hugeunion", N: func(string) int { return 1 }, Run: c11HugeUnion},
+			{CPUBudget: 900, Name: "hugeunion", N: func(string) int { return 1 }, Run: c11HugeUnion}, // (20 s quick, 90 s thorough on this machine)
 			{Name: "seqlists", N: func(string) int { return 6 + 36 + 216 + 1296 }, Run: c11SeqLists},
 			{Name: "rand", N: tierN(150000, 8000000), Run: c11Random},
 		},
